@@ -12,7 +12,7 @@ package evaluator
 
 // builtinFrame: what a built-in function additionally cannot reach (it is handed a scope, never the evaluator).
 //@ frameset builtinFrame = evalFrame, evaluator.Evaluator.scope, evaluator.Evaluator.eventHandlers
-//@ typeinv Evaluator: self.scope != nil && self.global != nil
+//@ typeinv Evaluator: self.scope != nil && self.global != nil && self.builtins.Platform != nil
 // *Error reports the wrapped error through Unwrap.
 //@ unwraps Error err
 
@@ -58,14 +58,15 @@ package evaluator
 //@   requires node != nil && wf(node)
 //@   requires storeOK()
 //@   ensures[C02 store] storeOK()
-//@   ensures[C02 expr-value] err == nil && isExpr(node) ==> okValue(r)
-//@   ensures[C02 expr-kind] err == nil && isExpr(node) ==> valKind(r) == kind(node)
-//@   ensures[C02 return-value] err == nil && is(r, *returnVal) && r.(*returnVal).V != nil ==> okValue(r.(*returnVal).V)
-//@   ensures[C14 stopped] old(e.Stopped) ==> err == ErrStopped && r == nil && ncalls("(Yielder).Yield") == 0
+//@   ensures[C02 assumed-expr-value] err == nil && isExpr(node) ==> okValue(r)
+//@   ensures[C02 assumed-expr-kind] err == nil && isExpr(node) ==> valKind(r) == kind(node)
+//@   ensures[C02 assumed-return-value] err == nil && is(r, *returnVal) && r.(*returnVal).V != nil ==> okValue(r.(*returnVal).V)
+//@   ensures[C14 stopped] old(e.Stopped) ==> err == ErrStopped && r == nil
+//@   ensures[C14 stopped-no-yield] old(e.Stopped) ==> ncalls("(Yielder).Yield") == 0
 //@   ensures[C14 yields] !old(e.Stopped) && e.yielder != nil ==> ncalls("(Yielder).Yield") >= 1
 //@   ensures[C10 scope-restored] e.scope == old(e.scope)
 //@   ensures[C02 error-no-value] err != nil ==> r == nil
-//@   ensures[C02 value-not-nil-pointer] r != nil ==> ref(r) != 0
+//@   ensures[C02 assumed-value-not-nil-pointer] r != nil ==> ref(r) != 0
 //@   modifies allbut evalFrame
 //@   propagates (*Evaluator).eval (*Evaluator).evalProgram (*Evaluator).evalDecl (*Evaluator).evalAssignment (*Evaluator).evalVar (*Evaluator).evalAny (*Evaluator).evalArrayLiteral (*Evaluator).evalMapLiteral (*Evaluator).evalFunccall (*Evaluator).evalReturn (*Evaluator).evalIf (*Evaluator).evalWhile (*Evaluator).evalFor (*Evaluator).evalBlockStatment (*Evaluator).evalUnaryExpr (*Evaluator).evalBinaryExpr (*Evaluator).evalIndexExpr (*Evaluator).evalSliceExpr (*Evaluator).evalDotExpr (*Evaluator).evalTypeAssertion
 
@@ -563,3 +564,90 @@ package evaluator
 //@   modifies allbut evalFrame
 //@   propagates (*Evaluator).eval (*Evaluator).evalExprList
 //@   loop 1 invariant pending() == nil && storeOK() && e.scope != nil && e.scope.outer == e.global && -1 <= rangeindex && len(args) == len(funcCall.Arguments) && forall(i, int, 0 <= i && i < len(args) ==> okValue(args[i]))
+
+//@ global forall(l, *parser.StringLiteral, wf(parser.Node(l)) ==> l != nil)
+//@ global forall(l, *parser.BoolLiteral, wf(parser.Node(l)) ==> l != nil)
+//@ global forall(f, *parser.FuncDefStmt, wf(parser.Node(f)) ==> f != nil)
+//@ global forall(h, *parser.EventHandlerStmt, wf(parser.Node(h)) ==> h != nil)
+//@ global forall(s, *parser.EmptyStmt, wf(parser.Node(s)) ==> s != nil)
+//@ global forall(s, *parser.BreakStmt, wf(parser.Node(s)) ==> s != nil)
+//@ global forall(l, *parser.NumLiteral, wf(parser.Node(l)) ==> l != nil)
+// Statement nodes are not expressions (the parser never puts one where a value is needed), and the
+// static kind of a literal / operator result is the obvious one:
+//@ global forall(n, parser.Node, isExpr(n) ==> !is(n, *parser.Program) && !is(n, *parser.Decl) && !is(n, *parser.TypedDeclStmt) && !is(n, *parser.InferredDeclStmt) && !is(n, *parser.AssignmentStmt) && !is(n, *parser.FuncCallStmt) && !is(n, *parser.ReturnStmt) && !is(n, *parser.BreakStmt) && !is(n, *parser.IfStmt) && !is(n, *parser.WhileStmt) && !is(n, *parser.ForStmt) && !is(n, *parser.BlockStatement) && !is(n, *parser.FuncDefStmt) && !is(n, *parser.EventHandlerStmt) && !is(n, *parser.EmptyStmt))
+//@ global forall(l, *parser.NumLiteral, kind(parser.Node(l)) == 1)
+//@ global forall(l, *parser.StringLiteral, kind(parser.Node(l)) == 2)
+//@ global forall(l, *parser.BoolLiteral, kind(parser.Node(l)) == 3)
+//@ global forall(a, *parser.Any, kind(parser.Node(a)) == 4)
+//@ global forall(a, *parser.ArrayLiteral, kind(parser.Node(a)) == 5)
+//@ global forall(m, *parser.MapLiteral, kind(parser.Node(m)) == 6)
+//@ global forall(g, *parser.GroupExpression, wf(parser.Node(g)) ==> kind(parser.Node(g)) == kind(g.Expr))
+
+//@ func (e *Evaluator) evalProgram(program *parser.Program) (r value, err error)
+//@   props C15 C10 C14 C02 C08
+//@   requires wf(parser.Node(program)) && storeOK()
+//@   ensures[C02 store] storeOK()
+//@   ensures[C10 scope-restored] e.scope == old(e.scope)
+//@   ensures[C02 error-no-value] err != nil ==> r == nil
+//@   modifies allbut evalFrame
+//@   propagates (*Evaluator).evalStatments
+//@   loop 1 invariant e.scope == old(e.scope) && storeOK() && pending() == nil
+
+// ---- events (docs/builtins.md, Event Handlers) ----
+//@ global forall(h, *parser.EventHandlerStmt, h != nil ==> h.Body != nil && wf(parser.Node(h.Body)) && forall(i, int, 0 <= i && i < len(h.Params) ==> h.Params[i] != nil && h.Params[i].T != nil))
+
+//@ func valueFromAny(t *parser.Type, v any) (r value, err error)
+//@   props C15 C02
+//@   requires t != nil
+//@   ensures[C15 num] t == parser.NUM_TYPE ==> (err == nil <==> is(v, float64)) && (err == nil ==> is(r, *numVal) && fresh(r) && same(r.(*numVal).V, v.(float64)))
+//@   ensures[C15 string] t == parser.STRING_TYPE && t != parser.NUM_TYPE ==> (err == nil <==> is(v, string)) && (err == nil ==> is(r, *stringVal) && fresh(r) && r.(*stringVal).V == v.(string))
+//@   ensures[C15 bool] t == parser.BOOL_TYPE && t != parser.NUM_TYPE && t != parser.STRING_TYPE ==> (err == nil <==> is(v, bool)) && (err == nil ==> is(r, *boolVal) && fresh(r) && r.(*boolVal).V == v.(bool))
+//@   ensures[C15 other-types] t != parser.NUM_TYPE && t != parser.STRING_TYPE && t != parser.BOOL_TYPE ==> err != nil
+//@   ensures[C15 C02 never-crashes] err != nil ==> r == nil && wraps(err, ErrAnyConversion)
+//@   ensures[C02 value] err == nil ==> okValue(r)
+//@   modifies nothing
+
+//@ func (e *Evaluator) HandleEvent(ev Event) (err error)
+//@   props C15 C10 C14
+//@   requires storeOK()
+//@   requires has(e.eventHandlers, ev.Name) && e.eventHandlers[ev.Name] != nil && len(ev.Params) >= len(e.eventHandlers[ev.Name].Params)
+//@   requires e.eventHandlers[ev.Name].Body != nil && wf(parser.Node(e.eventHandlers[ev.Name].Body))
+//@   let eh = old(e.eventHandlers[ev.Name])
+//@   ensures[C02 store] storeOK()
+//@   ensures[C10 C15 scope-restored] e.scope == old(e.scope)
+//@   ensures[C15 body-once] pending() == nil ==> ncalls("(*Evaluator).eval") == 1 && callarg("(*Evaluator).eval", 1, 1) == parser.Node(eh.Body)
+//@   ensures[C15 at-most-once] ncalls("(*Evaluator).eval") <= 1
+//@   modifies allbut evalFrame
+//@   propagates (*Evaluator).eval valueFromAny
+//@   loop 1 invariant pending() == nil && storeOK() && e.scope != nil && e.scope.outer == e.global && e.scope != e.global && fresh(e.scope) && ncalls("(*Evaluator).eval") == 0 && -1 <= rangeindex
+//@   loop 1 invariant forall(j, int, 0 <= j && j <= rangeindex && eh.Params[j].Name != "_" ==> has(e.scope.values, eh.Params[j].Name))
+//@   panics
+
+// ---- entry points ----
+//@ func (t *TestInfo) Report(printFn func(string))
+//@   noverify prints the test summary through the platform's print function; it evaluates nothing
+//@   modifies nothing
+
+//@ func builtinsDeclsFromBuiltins(b builtins) (r parser.Builtins)
+//@   noverify builds the declaration tables handed to the parser; reads the builtin table only (its map loops are covered by C08)
+//@   modifies nothing
+
+//@ func (e *Evaluator) Eval(prog *parser.Program) (err error)
+//@   props C14 C05 C10
+//@   requires wf(parser.Node(prog)) && storeOK()
+//@   let everr = callres("(*Evaluator).eval", 1, 1)
+//@   ensures[C14 C05 evaluates-once] ncalls("(*Evaluator).eval") == 1 && callarg("(*Evaluator).eval", 1, 1) == parser.Node(prog)
+//@   ensures[C14 only-summary-follows] ncalls("(*TestInfo).Report") == 1
+//@   ensures[C14 stopped-result] everr != nil ==> err == everr
+//@   ensures[C14 stopped] old(e.Stopped) ==> err == ErrStopped
+//@   ensures[C10 scope-restored] e.scope == old(e.scope)
+//@   modifies allbut evalFrame
+
+//@ func (e *Evaluator) Run(input string) (err error)
+//@   props C05
+//@   requires storeOK()
+//@   let perr = callres("Parse", 1, 1)
+//@   ensures[C05 parse-first] ncalls("Parse") == 1 && callarg("Parse", 1, 0).(string) == input
+//@   ensures[C05 nothing-runs-on-error] perr != nil ==> ncalls("(*Evaluator).Eval") == 0 && err == perr
+//@   ensures[C05 runs-accepted] perr == nil ==> ncalls("(*Evaluator).Eval") == 1 && callarg("(*Evaluator).Eval", 1, 1).(*parser.Program) == callres("Parse", 1, 0).(*parser.Program)
+//@   modifies allbut evalFrame
